@@ -12,6 +12,10 @@ let parse_op (s : string) : op =
   | ["mode"; b] -> SetMode (b = "1")
   | ["ai"; i] -> AddInput (n i) | ["ri"; i] -> RemoveInput (n i)
   | ["as"; c] -> AddSource (n c) | ["rs"; c] -> RemoveSource (n c)
+  | ["cl"] -> CleanStale
+  | ["wr"; i; b] -> OutResult (n i, b = "1")
+  | ["sr"; c; b] -> SinkResult (n c, b = "1")
+  | ["sd"; h] -> SetDMX (bytes_of_hex h)
   | ["ao"; i] -> AddOutput (n i) | ["ro"; i] -> RemoveOutput (n i)
   | ["ak"; c] -> AddSink (n c) | ["rk"; c] -> RemoveSink (n c)
   | ["pp"; i; p] -> SetPortPrio (n i, n p)
@@ -53,7 +57,9 @@ let handle (p : string) : string =
       Buffer.add_string b (Printf.sprintf "b%d=%s;p%d=%d;e%d=%s;m%d=%s/%s/%s/%s;" !k (hex_of_bytes u.u_buf)
         !k (int_of_n u.u_prio) !k
         (if evs = [] then "-" else String.concat "," (List.map (ev_s u.u_buf) evs))
-        !k (nl u.u_inputs) (nl u.u_clients) (nl u.u_outs) (nl u.u_sinks));
+        !k (nl u.u_inputs)
+        (String.concat "." (List.map (fun (c, st) -> string_of_int (int_of_n c) ^ (if st then "*" else "")) u.u_clients))
+        (nl u.u_outs) (nl u.u_sinks));
       incr k
     end) (split p);
   (* input class: richest HTP outcome / richest LTP multi-source outcome / whether some update was
